@@ -54,7 +54,8 @@ PLANS["C19"] = dict(engine=INO, mc=[],
 _KQ = dict(engine="kq", driver="kqrun", trace_spec="KqueueTrace", mc=["MC_Kq"],
            assumptions=["the kqueue backend is the working tree's source compiled on Linux against a simulated kqueue (harness/simkq/unix): real descriptors on a real "
                         "directory tree, NOTE_* raised per operation as FreeBSD's vop_*_post hooks do, all notes of one operation raised atomically",
-                        "the simulation is calibrated against the repository's recorded kqueue expectations (testdata); behaviour of a real BSD kernel is not observed",
+                        "the simulation is calibrated against the repository's recorded kqueue expectations: bin/kqcalibrate replays every testdata script the repository runs on FreeBSD "
+                        "(all 40 applicable ones of watch-dir, watch-file, watch-symlink) through the backend on the simulator and obtains exactly the recorded freebsd/kqueue events; a real BSD kernel is not observed",
                         "quiescence is detected from goroutine states and the simulator's pending-knote count"])
 PLANS["C17"] = dict(_KQ, quick=[("kqdir", 250, ""), ("kqsym", 60, ""), ("kqcycle", 6, "n=100"), ("kqburst", 20, ""), ("kqfault", 30, ""), ("kqkfault", 40, ""), ("kqnested", 40, ""), ("kqseq", 60, ""), ("kqdot", 30, "")],
                     thorough=[("kqdir", 6000, ""), ("kqsym", 1500, ""), ("kqcycle", 30, "n=1000"), ("kqburst", 300, ""), ("kqfault", 400, ""), ("kqkfault", 600, ""), ("kqnested", 1000, ""), ("kqseq", 1500, ""), ("kqdot", 500, "")])
